@@ -153,5 +153,36 @@ def run(ctx):
             mp = {m: of.up_then_down(m, nm) for m in range(nm)}
             ref = {tuple((mp[j], x) for j, x in t): c for t, c in fop.terms.items()}
             add('reorder', '(fermi_equiv %s %s)' % (coq_fop_terms(ref), coq_fop(ro)), {'call': 'reorder(up_then_down)', 'terms': {repr(t): repr(c) for t, c in fop.terms.items()}}, key=repr(a))
+    # ---- reorder on every ladder-type class (bosons / quadratures: terms with several non-commuting factors on one
+    #      mode), both directions, explicit num_modes: the result is the operator with its modes relabelled
+    def swap_neighbours(j, nmodes): return j + 1 if j % 2 == 0 and j + 1 < nmodes else (j - 1 if j % 2 == 1 else j)
+    def rotate_modes(j, nmodes): return (j + 1) % nmodes
+    for i in range(N(60, 400)):
+        kind = rng.choice(['boson', 'quad', 'fermion'])
+        cls = {'boson': of.BosonOperator, 'quad': of.QuadOperator, 'fermion': of.FermionOperator}[kind]
+        acts = ['q', 'p'] if kind == 'quad' else [1, 0]
+        nm = rng.choice([2, 3, 4]); terms = {}
+        for _ in range(rng.randint(1, 3)):
+            L = rng.choice([1, 2, 2, 3, 4])
+            terms[tuple((rng.randrange(nm) if rng.random() < 0.6 else 0, rng.choice(acts)) for _ in range(L))] = dyc(rng)
+        op = cls()
+        for t, c in terms.items(): op += cls(t, c)
+        if not op.terms: continue
+        fn = rng.choice([of.up_then_down, swap_neighbours, rotate_modes]); rev = rng.random() < 0.4
+        if fn is of.up_then_down and nm % 2: nm += 1
+        try: out = of.reorder(op, fn, num_modes=nm, reverse=rev)
+        except Exception as e:
+            ctx.violation('C03 reorder raised %s: %s' % (type(e).__name__, e), {'call': 'reorder', 'class': cls.__name__, 'terms': repr(op.terms)}); continue
+        mp = {m: fn(m, nm) for m in range(nm)}
+        if rev: mp = {v: k for k, v in mp.items()}
+        if not all(f[0] in mp for t in op.terms for f in t): continue
+        ref = {}
+        for t, c in op.terms.items(): ref[tuple((mp[j], x) for j, x in t)] = ref.get(tuple((mp[j], x) for j, x in t), 0) + c
+        if not exact_terms_ok(out.terms) or not exact_terms_ok(ref): continue
+        q = (kind == 'quad')
+        if kind == 'fermion': chk = 'fermi_equiv %s %s' % (coq_fop_terms(ref), coq_fop(out))
+        else: chk = 'bose_equiv_on %s %s 4 %s %s' % ('(qapply1 C1)' if q else 'bapply1', cnat(nm), coq_lop(ref, q), coq_lop(out.terms, q))
+        add('reorder_all_classes', '(%s)' % chk, {'call': 'reorder', 'class': cls.__name__, 'order_function': fn.__name__, 'reverse': rev, 'num_modes': nm, 'terms': {repr(t): repr(c) for t, c in op.terms.items()}},
+            key=(kind, fn.__name__, rev, repr(op.terms)))
     res = coq_eval_bools(ctx, 'no', IMPORTS, items, chunk=60)
     judge(ctx, res, meta, 'C03')
